@@ -55,53 +55,60 @@ theorem filter_map_le2 {α : Type} (l : List α) (f : α → α) (p q r : α →
     · rw [if_neg hp]; omega
 
 /-- The address check finds nothing exactly when no device at `x` answers or refuses. -/
-theorem checkAddress_found (bus : Bus) (x : Nat) :
-    (checkAddress bus x).1 = (decide (0 < countAt bus x .refuses) || decide (0 < countAt bus x .answers)) := by
+theorem checkAddress_found (sync : Bool) (bus : Bus) (x : Nat) :
+    (checkAddress sync bus x).1 = (decide (0 < countAt bus x .refuses) || decide (0 < countAt bus x .answers)) := by
   unfold checkAddress
   by_cases hR : 0 < countAt bus x .refuses <;> by_cases hA : 0 < countAt bus x .answers <;> simp [hR, hA]
 
-theorem checkAddress_tels (bus : Bus) (x : Nat) (t : Tel) (h : t ∈ (checkAddress bus x).2.1) :
+theorem checkAddress_tels (sync : Bool) (bus : Bus) (x : Nat) (t : Tel) (h : t ∈ (checkAddress sync bus x).2.1) :
     t = .conn x ∨ t = .data x 0 .ddr ∨ t = .disc x := by
   unfold checkAddress at h
   by_cases hR : 0 < countAt bus x .refuses <;> by_cases hA : 0 < countAt bus x .answers <;>
-    simp [hR, hA] at h <;>
+    cases sync <;> simp [hR, hA, refusedTels] at h <;>
     first
     | (rcases h with h | h | h | h <;> simp [h])
     | (rcases h with h | h | h <;> simp [h])
     | (rcases h with h | h <;> simp [h])
+    | (simp [h])
 
-theorem restartSession_tels (bus : Bus) (x : Nat) (t : Tel) (h : t ∈ (restartSession bus x).tels) :
+theorem restartSession_tels (sync : Bool) (bus : Bus) (x : Nat) (t : Tel) (h : t ∈ (restartSession sync bus x).tels) :
     t = .conn x ∨ t = .data x 0 .ddr ∨ t = .data x 1 .restart ∨ t = .disc x := by
   unfold restartSession at h
   by_cases hR : 0 < countAt bus x .refuses <;> by_cases hA : 0 < countAt bus x .answers <;>
-    simp [hR, hA] at h <;>
+    cases sync <;> simp [hR, hA, refusedTels] at h <;>
     first
     | (rcases h with h | h | h | h <;> simp [h])
     | (rcases h with h | h | h <;> simp [h])
     | (rcases h with h | h <;> simp [h])
+    | (simp [h])
 
-theorem restartSession_bus (bus : Bus) (x : Nat) :
-    (restartSession bus x).bus = bus ∨ (restartSession bus x).bus = restartAt bus x := by
+theorem restartSession_bus (sync : Bool) (bus : Bus) (x : Nat) :
+    (restartSession sync bus x).bus = bus ∨ (restartSession sync bus x).bus = restartAt bus x := by
   unfold restartSession
   by_cases hR : 0 < countAt bus x .refuses <;> by_cases hA : 0 < countAt bus x .answers <;> simp [hR, hA]
 
 /-- The five ways `nm_individual_address_write` can go. -/
-inductive WriteCase (bus : Bus) : Out → Prop
+inductive WriteCase (sync : Bool) (bus : Bus) : Out → Prop
   | fail : (progAddrs bus = [] ∨ 2 ≤ (progAddrs bus).length ∨
-        (∃ p, progAddrs bus = [p] ∧ p ≠ target ∧ (checkAddress bus target).1 = true)) →
-      WriteCase bus { res := .err, tels := (checkAddress bus target).2.1 ++ [.bRead],
-                      acks := (checkAddress bus target).2.2, bus := bus }
-  | held : progAddrs bus = [target] → (checkAddress bus target).1 = true →
-      WriteCase bus { restartSession bus target with
-        tels := (checkAddress bus target).2.1 ++ [.bRead] ++ (restartSession bus target).tels,
-        acks := (checkAddress bus target).2.2 ++ (restartSession bus target).acks }
-  | write (p : Nat) : progAddrs bus = [p] → (checkAddress bus target).1 = false →
-      WriteCase bus { restartSession (writeAddr bus target) target with
-        tels := (checkAddress bus target).2.1 ++ [.bRead, .bWrite target] ++
-          (restartSession (writeAddr bus target) target).tels,
-        acks := (checkAddress bus target).2.2 ++ (restartSession (writeAddr bus target) target).acks }
+        (∃ p, progAddrs bus = [p] ∧ p ≠ target ∧ (checkAddress sync bus target).1 = true)) →
+      WriteCase sync bus
+        { res := .err, tels := (checkAddress sync bus target).2.1 ++ [.bRead],
+          acks := (checkAddress sync bus target).2.2, bus := bus }
+  | held : progAddrs bus = [target] → (checkAddress sync bus target).1 = true →
+      WriteCase sync bus
+        { res := (restartSession sync bus target).res,
+          tels := (checkAddress sync bus target).2.1 ++ [.bRead] ++ (restartSession sync bus target).tels,
+          acks := (checkAddress sync bus target).2.2 ++ (restartSession sync bus target).acks,
+          bus := (restartSession sync bus target).bus }
+  | write (p : Nat) : progAddrs bus = [p] → (checkAddress sync bus target).1 = false →
+      WriteCase sync bus
+        { res := (restartSession sync (writeAddr bus target) target).res,
+          tels := (checkAddress sync bus target).2.1 ++ [.bRead, .bWrite target] ++
+            (restartSession sync (writeAddr bus target) target).tels,
+          acks := (checkAddress sync bus target).2.2 ++ (restartSession sync (writeAddr bus target) target).acks,
+          bus := (restartSession sync (writeAddr bus target) target).bus }
 
-theorem addrWrite_cases (bus : Bus) : WriteCase bus (addrWrite bus) := by
+theorem addrWrite_cases (sync : Bool) (bus : Bus) : WriteCase sync bus (addrWrite sync bus) := by
   unfold addrWrite
   cases hp : progAddrs bus with
   | nil => simp only; exact .fail (Or.inl hp)
@@ -110,7 +117,7 @@ theorem addrWrite_cases (bus : Bus) : WriteCase bus (addrWrite bus) := by
     | cons q qs => simp only; exact .fail (Or.inr (Or.inl (by rw [hp]; simp)))
     | nil =>
       simp only
-      by_cases hf : (checkAddress bus target).1 = true
+      by_cases hf : (checkAddress sync bus target).1 = true
       · rw [if_pos hf]
         by_cases hne : p ≠ target
         · rw [if_pos hne]; exact .fail (Or.inr (Or.inr ⟨p, hp, hne, hf⟩))
